@@ -5,6 +5,7 @@ import (
 	"math"
 	"math/big"
 	"reflect"
+	"sort"
 	"strings"
 
 	"github.com/elastic/go-structform/gotype"
@@ -199,6 +200,46 @@ type renderer struct {
 	route   string
 	unk     int
 	perturb bool
+	// names: every member name some struct in the value knows (collected on
+	// first use): an unknown member is often named like a field of ANOTHER
+	// struct of the same target type
+	names     []string
+	namesDone bool
+}
+
+func collectFieldNames(v model.V, into map[string]bool) {
+	for _, n := range v.FieldNames {
+		if n != "" {
+			into[n] = true
+		}
+	}
+	for _, e := range v.A {
+		collectFieldNames(e, into)
+	}
+	for _, m := range v.O {
+		collectFieldNames(m.Val, into)
+	}
+}
+
+// unknownKey draws the name of a member the struct v does not know.
+func (r *renderer) unknownKey(v model.V) []byte {
+	r.unk++
+	if v.FieldNames != nil && len(r.names) > 0 && rapid.Bool().Draw(r.t, "unkforeign") {
+		own := map[string]bool{}
+		for _, n := range v.FieldNames {
+			own[n] = true
+		}
+		var foreign []string
+		for _, n := range r.names {
+			if !own[n] {
+				foreign = append(foreign, n)
+			}
+		}
+		if len(foreign) > 0 {
+			return []byte(rapid.SampledFrom(foreign).Draw(r.t, "unkname"))
+		}
+	}
+	return []byte(fmt.Sprintf("~u%d", r.unk))
 }
 
 var intKinds = []struct {
@@ -293,6 +334,15 @@ func (r *renderer) key(k []byte) model.Ev {
 }
 
 func (r *renderer) render(v model.V, out *[]model.Ev) {
+	if !r.namesDone {
+		r.namesDone = true
+		set := map[string]bool{}
+		collectFieldNames(v, set)
+		for n := range set {
+			r.names = append(r.names, n)
+		}
+		sort.Strings(r.names)
+	}
 	switch v.K {
 	case model.VNull:
 		*out = append(*out, model.Ev{K: model.KNil})
@@ -333,8 +383,7 @@ func (r *renderer) render(v model.V, out *[]model.Ev) {
 			if v.Struct && r.perturb {
 				// unknown member before this one?
 				for rapid.IntRange(0, 5).Draw(r.t, "unk") == 5 {
-					r.unk++
-					body = append(body, r.key([]byte(fmt.Sprintf("~u%d", r.unk))))
+					body = append(body, r.key(r.unknownKey(v)))
 					r.unknownValue(&body)
 					count++
 				}
@@ -350,8 +399,7 @@ func (r *renderer) render(v model.V, out *[]model.Ev) {
 			}
 		}
 		if v.Struct && r.perturb && rapid.IntRange(0, 3).Draw(r.t, "unkend") == 3 {
-			r.unk++
-			body = append(body, r.key([]byte(fmt.Sprintf("~u%d", r.unk))))
+			body = append(body, r.key(r.unknownKey(v)))
 			r.unknownValue(&body)
 			count++
 		}
